@@ -308,6 +308,14 @@ class TreeLikelihoodModel(CallableModel):
             self.partials, self.weights = site_pattern.compute_tips_partials(
                 use_ambiguities
             )
+        # tip data come in the order of the alignment's taxa, leaves are indexed in
+        # the order of the tree model's: match them by taxon name
+        alignment_ids = [taxon.id for taxon in site_pattern.alignment.taxa]
+        tree_ids = list(tree_model.taxa)
+        if alignment_ids != tree_ids:
+            self.partials = [
+                self.partials[alignment_ids.index(taxon_id)] for taxon_id in tree_ids
+            ]
         self.partials.extend([None] * (len(tree_model.taxa) - 1))
 
     def _call(self, *args, **kwargs) -> torch.Tensor:
